@@ -31,12 +31,10 @@ class Engine:
         if st['unknown'] > 3:
             raise AnalysisError('call resolution lost ground: %r, %r'
                                 % (st, self.r.unknown_calls[:5]))
-        if self.R0.unsummarised and \
-                {u for u in self.R0.unsummarised} - {
-                    ('connection.H2ConnectionStateMachine.process_input',
-                     'func')}:
-            raise AnalysisError('external calls without a summary line: %r'
-                                % sorted(set(self.R0.unsummarised))[:8])
+        # external calls without a summary line: the escape-set properties
+        # (C17, C29) cannot be decided where such a call is reachable and
+        # say so themselves (rules.c17.require_summaries); every other rule
+        # carries on
         # pass 2: discharge partial operations by guards and shape facts,
         # then recompute the escape sets and the path interpreter with them
         from .discharge import Discharger
@@ -77,5 +75,14 @@ class Engine:
         ctx.record('calls_resolved', '%d/%d' % (
             self.r.stats['calls'] - self.r.stats['unknown'],
             self.r.stats['calls']))
+        n = self.m.norm
+        if n.helpers:
+            ctx.record('introduced_helpers', sorted(n.helpers))
+            ctx.record('helper_calls_inlined', len(n.inlined))
+            if n.kept:
+                ctx.note('introduced helper calls left for the path '
+                         'interpreter: %s' % sorted(
+                             {'%s in %s (%s)' % (h, c, why)
+                              for c, h, why in n.kept}))
         ctx.record('partial_ops_discharged', '%d/%d' % (
             len(self.D.reasons), len(self.D.reasons) + len(self.D.open)))
